@@ -199,6 +199,68 @@ def oracle(case, res):
     return None
 
 
+def many_in_one_direction(ctx, proof):
+    """real sockets: 8-13 toxics listed for ONE direction of a proxy, the last of them a latency toxic; a connection made afterwards is
+    delayed in that direction and not at all in the other one (nothing is listed there); after the toxics are removed (one by one or by
+    reset) a new connection is delayed in neither"""
+    from . import tcp as T
+
+    def scen(n):
+        rng = C.Rng(ctx.seed).fork("C04many")
+        cases = []
+        for i in range(n):
+            g = i % 6
+            b = T.port_base(g)
+            up, px = b, b + 1
+            k = [8, 9, 10, 13][i % 4]
+            side = ["upstream", "downstream"][(i // 4) % 2]
+            ops = [{"op": "upstream", "id": "u", "port": up, "mode": "manual"},
+                   T.api("POST", "/proxies", {"name": "p", "listen": "127.0.0.1:%d" % px, "upstream": "127.0.0.1:%d" % up})]
+            for j in range(k - 1):
+                ops.append(T.api("POST", "/proxies/p/toxics", {"type": rng.choice(["noop", "latency", "slicer"]), "name": "f%d" % j, "stream": side, "attributes": {}}))
+            ops.append(T.api("POST", "/proxies/p/toxics", {"type": "latency", "name": "last", "stream": side, "attributes": {"latency": 700}}))
+            ops += [{"op": "dial", "id": "c", "addr": "127.0.0.1:%d" % px}, {"op": "upaccept", "id": "s", "up": "u", "ms": 1000}]
+            fwd, back = ("c", "s") if side == "upstream" else ("s", "c")
+            mark1 = len(ops)
+            ops += [{"op": "send", "id": back, "n": 40}, {"op": "recv", "id": fwd, "up": back, "n": 40, "ms": 400},      # the direction without toxics
+                    {"op": "send", "id": fwd, "n": 40}, {"op": "recv", "id": back, "up": fwd, "n": 40, "ms": 2000}]    # the delayed direction
+            if i % 2:
+                ops.append(T.api("POST", "/reset"))
+            else:
+                ops.append(T.api("DELETE", "/proxies/p/toxics/last"))
+                for j in range(k - 1):
+                    ops.append(T.api("DELETE", "/proxies/p/toxics/f%d" % j))
+            ops += [{"op": "dial", "id": "c2", "addr": "127.0.0.1:%d" % px}, {"op": "upaccept", "id": "s2", "up": "u", "ms": 1000}]
+            mark2 = len(ops)
+            ops += [{"op": "send", "id": "s2", "n": 40}, {"op": "recv", "id": "c2", "up": "s2", "n": 40, "ms": 400},
+                    {"op": "send", "id": "c2", "n": 40}, {"op": "recv", "id": "s2", "up": "c2", "n": 40, "ms": 400},
+                    T.api("GET", "/proxies/p/toxics")]
+            cases.append({"ops": ops, "group": g, "k": k, "side": side, "mark1": mark1, "mark2": mark2})
+        results = T.run_tcp(ctx, cases, "c04m")
+        fails = []
+        for c, r in zip(cases, results):
+            if T.env_broken(r):
+                continue
+            rp = {"kind": "failing-input", "tcp": True, "case": c, "observed": r}
+            if isinstance(r, dict):
+                fails.append(("crash", "process crashed with %d toxics in one direction" % c["k"], rp))
+                continue
+            free, delayed = r[c["mark1"] + 1], r[c["mark1"] + 3]
+            if not free.get("ok"):
+                fails.append(("unlisted-toxic-in-effect", "%d toxics listed for the %s direction, none for the other: data in the other direction did not arrive within 400 ms "
+                                                          "(%s) - a toxic is in effect where none is listed" % (c["k"], c["side"], free.get("end") or "nothing"), rp))
+            elif not delayed.get("ok") or delayed.get("took_ms", 0) < 650:
+                fails.append(("listed-toxic-not-in-effect", "%d toxics listed for the %s direction, the last a latency of 700 ms: data in that direction arrived after %s ms"
+                              % (c["k"], c["side"], delayed.get("took_ms")), rp))
+            else:
+                a, b2 = r[c["mark2"] + 1], r[c["mark2"] + 3]
+                if not (a.get("ok") and b2.get("ok")) or r[-1].get("body", "").strip() != "[]":
+                    fails.append(("removed-toxic-in-effect", "after all %d toxics of the %s direction were removed a new connection is still affected (towards client: %s, towards "
+                                                             "upstream: %s; listed: %s)" % (c["k"], c["side"], a.get("end") or "ok", b2.get("end") or "ok", r[-1].get("body", "").strip()[:60]), rp))
+        return fails, {"tcp_many_in_one_direction": len(cases), "tcp_many_failures": len(fails)}
+    return T.stable(lambda: scen((8 if ctx.tier == "quick" else 160) * (1 if proof["build_ok"] else 2)))
+
+
 def run(ctx):
     def keep_more(cases, results):
         return {}
@@ -228,7 +290,7 @@ def run(ctx):
                  "removal or update; distinct by JSON",
             nontrivial=lambda c: any(o["op"] in ("remove", "update", "reset") for o in c.get("ops") or []),
             assumptions=["toxicity 0 or 1 only (deterministic comparison)", "reset_peer is excluded (socket option applied at connect time only, C13)"],
-            model_filter=lambda c: False)
+            model_filter=lambda c: False, side_findings=many_in_one_direction)
     finally:
         L.run_impl = orig
 
